@@ -6,6 +6,8 @@ mod c04;
 mod c09;
 mod c13;
 mod c18;
+mod fsops;
+mod fsutil;
 mod util;
 
 fn main() {
@@ -19,6 +21,7 @@ fn main() {
     let observed: Vec<Value> = match args[1].as_str() {
         "c04" => cases.iter().map(c04::run).collect(),
         "c09" => cases.iter().map(c09::run).collect(),
+        "fsops" => cases.iter().map(fsops::run).collect(),
         "c13" => cases.iter().map(c13::run).collect(),
         "c18" => cases.iter().map(c18::run).collect(),
         other => {
